@@ -118,6 +118,13 @@ def parse(out, res):
             res.violated = res.violated or "temporal"
         if ln.startswith("Error: Property ") and "violated" in ln:
             res.violated = ln.split()[2]
+        m = re.match(r"Error: Invariant (\S+) is violated by the initial state", ln)
+        if m:
+            res.violated = m.group(1)
+            cur = {}
+            res.trace.append(cur)
+            buf = None
+            continue
         m = re.match(r"State (\d+): ", ln)
         if m:
             cur = {}
